@@ -132,7 +132,8 @@ class Emitter:
                 fields = []
                 for a in c["args"]:
                     if a.get("doc"):
-                        lines.append("        /// %s" % a["doc"])
+                        for dl in a["doc"].split("\n"):
+                            lines.append("        ///%s" % ((" " + dl) if dl else ""))
                     at = []
                     if a["kind"] in ("opt", "flag"):
                         if a["short"] is True: at.append("short")
@@ -431,11 +432,22 @@ def corpus_sets():
                                                               arg("level", "opt", "u8", long=True, short=True, default=("v", ("n", 1)))],
          "sub": {"optional": False, "enum": sub6, "field": "command"}},
         {"variant": "Copy", "name": None, "doc": None, "sub": None, "args": [arg("name", "opt", "str", long=True, short=True, optional=True), arg("verbose", "flag", "bool", short=True), arg("file", valname="FILE")]}]}})
+    # 7: attribute interplay: generated short name next to an explicit long name (and the reverse), Option<bool> flag, snake_case field with
+    #    generated long name / value name, doc comments with several blank lines between paragraphs, whitespace-only and leading blank lines
+    sets.append({"kind": "enum", "enum": {"title": None, "cmds": [
+        {"variant": "Conf", "name": None, "doc": "Configure\n\n\nSecond paragraph\nsame paragraph.\n \n\n  \nThird..", "sub": None, "args": [
+            arg("task", "opt", "str", long="job", short=True, doc="\nLeading blank line"),
+            arg("out_file", "opt", "str", long=True, short="o", optional=True, doc="Two\n\n\n\nparagraphs."),
+            arg("quiet", "flag", "bool", long="silent", short=True, optional=True),
+            arg("level", "opt", "i16", long="amount", short=True, default=("s", "-3")),
+            arg("in_file", doc="Trailing blank\n\n")]},
+        {"variant": "OutFile", "name": None, "doc": "\n\nOnly after blanks.", "sub": None, "args": [arg("k", "flag", "bool", short=True, long="keep_it")]}]}})
     return sets
 
 VARIANTS = ["Get", "GetLed", "GetAdc", "Set", "SetLed", "Go", "Status", "Stat", "Start", "Stop", "Helper", "Hello", "He", "Exit", "Led", "Adc", "A", "Ab", "Abc", "Xy"]
 FIELDS = ["name", "level", "verbose", "file", "value", "item", "count", "mode", "ch", "flag_x", "out_file", "k"]
-DOCS = [None, None, "Do something", "Short text.", "Two sentences. Here..", "First paragraph\nstill first\n\nSecond paragraph.", "Trailing dots.."]
+DOCS = [None, None, "Do something", "Short text.", "Two sentences. Here..", "First paragraph\nstill first\n\nSecond paragraph.", "Trailing dots..",
+        "One.\n\n\nTwo after two blank lines.", "A\n  \n\n \nB\nb\n\nC..", "\nLeading blank", "Trailing blanks\n\n"]
 
 def rand_enum(rng, depth=0, used=None):
     ncmds = rng.choice([1, 2, 3, 4, 5])
